@@ -60,6 +60,7 @@ class HTTPStream:
         stream_id: int,
     ) -> None:
         self.app = app
+        self.app_put: Optional[Callable] = None
         self.client = client
         self.closed = False
         self.config = config
